@@ -18,7 +18,7 @@ CHECKS = {
             "Lean 4 theorems + model/code correspondence (differential, exhaustive small scope)", "7 C17"),
 }
 
-CHECKS["C16"] = ("Proof: the model of NumberLineCli (processLine fold with one counter over all files) equals the property's "
+CHECKS["C16"] = ("Proof: C16.files_as_concatenation — files ending with a line feed are numbered as their joined text (readlines of a concatenation under universal newlines); the model of NumberLineCli (processLine fold with one counter over all files) equals the property's "
                  "numbering rule for every text, start, increment, width (run_eq_spec); length, verbatim, padding and idempotence "
                  "(any second configuration, positive start/increment) theorems. Tie: differential CLI runs (files, stdin, "
                  "CR/LF mixes), exhaustive over all 3-line (quick) / 4-line (thorough) texts on 6 line shapes.",
@@ -30,7 +30,7 @@ CHECKS["C15"] = ("Proof: listing->ASCII BASIC shape and 7-bit; ASCII BASIC->list
                  "Lean 4 theorems + model/code correspondence (differential, exhaustive small scope)", "7 C15")
 
 T = "Lean 4 theorems + model/code correspondence (differential CLI runs) + format oracle"
-CHECKS["C01"] = ("Proof: C01.roundtrip — for every list of readable sources with ordinary 8.3 names that fits, and any contents, the "
+CHECKS["C01"] = ("Proof: C01.roundtrip_directory — distinct catalog names: after create + extract each source's content is under its name in the destination; C01.roundtrip — for every list of readable sources with ordinary 8.3 names that fits, and any contents, the "
                  "model's create writes an archive from which the model's extract writes every file byte for byte under its "
                  "upper-cased name beside the archive / under --into, and list names exactly those files in order (composition of the "
                  "writer invariant, the reader theorem on rendered tapes and the whole-file reader lemma). Tie: create/list/extract of "
@@ -60,7 +60,7 @@ CHECKS["C02"] = ("Proof: C02.create_then_extract — for every list of sources w
                  "writes exactly as many files as there were sources, each the exact data of one. For larger batches which sources end up "
                  "stored is the placement rule of C10. Tie/oracle: create -> list -> extract of both real tools vs the "
                  "compiled model and vs the sources, sizes 0 .. beyond a side, every block of a side as first block of a file.", D, "7 C02")
-CHECKS["C04"] = ("Proof: C04.created_image_is_well_formed — for every source list --create writes the serialisation of four sides each accepted by "
+CHECKS["C04"] = ("Proof: C04.created_entries_follow_extension_rules — bytes 11/12 of every stored entry are the kind/flag of the extension table for its source; C04.created_image_is_well_formed — for every source list --create writes the serialisation of four sides each accepted by "
                  "the strict independent checker Spec.Dos.fsck (geometry, table byte 0 zero, 160 valid statuses, track 20 reserved, acyclic chains "
                  "ending in C1..C8, no shared block, used = chains, <= 255 bytes in a last sector); consistent_side_passes_fsck (every side "
                  "satisfying the invariant of C05); independent_reader_agrees (the decoder written from the layout lists every live entry with, as "
@@ -77,7 +77,7 @@ CHECKS["C05"] = ("Proof: C05.every_history_consistent / every_archive_consistent
                  "SideInv => accepted by the independent Spec.Dos.fsck is C04.consistent_side_passes_fsck. Tie/oracle: all histories of depth "
                  "<= 2/3 over 9 step kinds, random ones, third-party pre-images with a full catalog and fragmented free space; each step vs model + "
                  "independent fsck + full read-back.", D, "7 C05")
-CHECKS["C06"] = ("Proof: C06.add_keeps_every_file — --add on the archive of any consistent image (whoever wrote it, however fragmented, deleted "
+CHECKS["C06"] = ("Proof: C06.used_blocks_never_modified — a whole --add leaves every sector of every block that was not free (track 20 apart) byte-identical and still not free; C06.add_keeps_every_file — --add on the archive of any consistent image (whoever wrote it, however fragmented, deleted "
                  "entries or not) with any batch returns 0 and writes a consistent image in which every file that was stored is still in the same "
                  "catalog slot with the same 16 entry bytes and the same content; every other file is the exact data of one of the sources; "
                  "old_files_intact (controller level); a sector write touches one sector; the table setter rewrites bytes 1..160 only; adding nothing "
@@ -103,12 +103,12 @@ CHECKS["C10"] = ("Proof: C10.placement_rule — a file offered while the cursor 
                  "image the batch leaves, on side k, in a slot that held nothing before, with the announced size and block count "
                  "(file_announced_where_stored: per file, announced in section k iff received on side k). Tie/oracle: interleavings of files "
                  "and --eos on fresh / partially filled images; report sections and decoded image vs an independent replay of the placement rule.", D, "7 C10")
-CHECKS["C11"] = ("Proof: the payload setter never changes the sector length and overwrites exactly min(|v|,256) bytes (any length); save length "
+CHECKS["C11"] = ("Proof: C11.load_save_sd / repad_id — a four-sided .sd loaded and saved is payload-identical with FF padding, byte-identical when well padded; the payload setter never changes the sector length and overwrites exactly min(|v|,256) bytes (any length); save length "
                  "= sides x 1280 x sector size; .sd = .fd payloads with FF interleaved; both tools compute the same sides; load then save is the "
                  "identity for 1/2/4-sided .fd; save then load is the identity for four well-formed sides in both flavours, so both flavours load "
                  "back the same disk. Tie/oracle: same sources through both tools, no-op adds over tool-made / independent / bundled "
                  "images, DiskSector.dataOfPayload for every length 0..600 (exhaustive).", D, "7 C11")
-CHECKS["C12"] = ("Proof: C12.disk_list_report / disk_extract_report — for every image of four consistent sides with ordinary names, --list and "
+CHECKS["C12"] = ("Proof: C12.tape_reports_agree — tape create, list and extract print the same text (names, sizes, block counts, leader positions), either verbosity; C12.disk_list_report / disk_extract_report — for every image of four consistent sides with ordinary names, --list and "
                  "--extract (quiet and verbose) print exactly Disk.readReport, a stateless text: per side the separator, 'Side k', one line per live "
                  "entry in catalog order under its catalog name (verbose: kind, byte size, block count), the closing line of the side (file count or "
                  "'empty', plural, blocks, percentage), then '---', 'TOTAL' and the totals for an extraction; report_lines_are_the_files — one line "
